@@ -17,12 +17,12 @@ def plan(pid, tier, seed):
     quick = tier == "quick"
     if quick:
         mc = [
-            {"module": "BadSmell", "cfg": "BadSmell_MC_quick.cfg", "emit": True, "sample": 1600, "properties": PROPS_ALL, "timeout": 600},
+            {"module": "BadSmell", "cfg": "BadSmell_MC_quick.cfg", "emit": True, "sample": 1300, "properties": PROPS_ALL, "timeout": 600},
         ]
     else:
         mc = [
-            {"module": "BadSmell", "cfg": "BadSmell_MC_quick.cfg", "emit": True, "sample": None, "properties": PROPS_ALL, "timeout": 900},
-            {"module": "BadSmell", "cfg": "BadSmell_MC_thorough.cfg", "emit": True, "sample": 60000, "properties": PROPS_ALL,
+            {"module": "BadSmell", "cfg": "BadSmell_MC_quick.cfg", "emit": True, "sample": 12000, "properties": PROPS_ALL, "timeout": 900},
+            {"module": "BadSmell", "cfg": "BadSmell_MC_thorough.cfg", "emit": True, "sample": 12000, "properties": PROPS_ALL,
              "timeout": 3600, "coverage": True},
         ]
     return {
@@ -30,7 +30,7 @@ def plan(pid, tier, seed):
         "needs_coca": True,
         "mc": mc,
         "gen": [],
-        "rand": 400 if quick else 12000,
+        "rand": 300 if quick else 6000,
         "trace": TRACE,
         "run_timeout": 6000,
     }
